@@ -74,6 +74,7 @@ type cwRun struct {
 	lastGC   int
 	overlaps int64
 	dbg bool
+	crash *cwCrash // crash images at scheduler steps (c_crash.go); nil = none
 }
 
 func (worldC) Exec(c CCase, env *core.Env) *core.Outcome {
@@ -151,6 +152,7 @@ func cwExecOnce(c CCase, env *core.Env, attempt int) *core.Outcome {
 		out.Stats["gc_us"] += time.Since(t0).Microseconds()
 	}
 	base := filepath.Join(env.Scratch, fmt.Sprintf("a%d", attempt))
+	run.crashPlan(base)
 	if err := run.open(filepath.Join(base, "inc0"), ""); err != nil {
 		out.Violation = sviol(prop, "open_failed", "opening an empty shard failed: "+err.Error(), nil)
 		return out
@@ -232,6 +234,17 @@ func cwExecOnce(c CCase, env *core.Env, attempt int) *core.Outcome {
 	}
 	// ---- settled state: every task has finished; a fresh full query must now return
 	// exactly the acknowledged points (cells of failed writes may be old or new)
+	if run.crash != nil && prop == "C01" {
+		// C01 in this world is judged on crash images only; live reads and the clean reopen
+		// are clauses of C04 and are checked (and their findings listed) under that property
+		out.Nontrivial = out.Stats["crash_states"] > 0 && run.h.nAcked > 0
+		if !run.closed {
+			if v := run.closeNode("final_close"); v != nil {
+				out.Violation = v
+			}
+		}
+		return out
+	}
 	if !run.closed {
 		if v := run.finalReads("settled"); v != nil {
 			out.Violation = v
@@ -312,6 +325,7 @@ func (run *cwRun) open(dir, from string) error {
 	d.SetGate(run.sch.gate)
 	d.SetReadGate(run.sch.gate)
 	run.disks = append(run.disks, d)
+	run.crashNewIncarnation(dir, d)
 	node, err := openShard(dir, run.c.Knobs, uint64(run.inc+1))
 	if err != nil {
 		return err
@@ -506,7 +520,9 @@ func cwWaitStore(sh *shard) {
 	}
 }
 
-func (run *cwRun) doWrite(op COp) error {
+func (run *cwRun) doWrite(op COp) error { return cwWriteTo(run.node.sh, op) }
+
+func cwWriteTo(sh *shard, op COp) error {
 	rows := sBuildRows(op.ID, op.Rows)
 	if len(rows) == 0 {
 		return nil
@@ -519,7 +535,7 @@ func (run *cwRun) doWrite(op COp) error {
 	if err != nil {
 		panic(core.InfraPanic("unmarshal rows: " + err.Error()))
 	}
-	return run.node.sh.WriteRows(dec, bin)
+	return sh.WriteRows(dec, bin)
 }
 
 func cwRunQuery(sh *shard, q *sQuery) (map[string][]sDumpRow, []string, error) {
@@ -1009,9 +1025,25 @@ func (run *cwRun) loop() *core.Violation {
 		if v := run.observe(); v != nil {
 			return v
 		}
+		if run.crash != nil {
+			// a crash image of this quiescent point (C01); real time has passed afterwards: settle again
+			if v, checked := run.crashAt(false); v != nil {
+				return v
+			} else if checked {
+				continue
+			}
+		}
 		acts := run.enabled()
 		if len(acts) == 0 {
 			if !run.anyUnfinished() {
+				if run.crash != nil {
+					if v, _ := run.crashAt(true); v != nil {
+						return v
+					}
+					if msg := run.crashSelfCheck(); msg != "" {
+						panic(core.InfraPanic(msg))
+					}
+				}
 				return nil
 			}
 			// nothing parked, nothing startable, something unfinished: give timers a
